@@ -17,7 +17,7 @@ PROPS = {
         level_text="Exploration by runtime monitoring: identity oracle (reconstruction must equal the consumed prefix), agreement of both verify settings and suffix independence, observed over thousands of accepted streams per run from five independent stream sources and their mutants. The property is a for-all-inputs claim about a 8.5 kLoC predictor; no finite enumeration exists, so the level is 'held on the executions observed'.",
         design_ref='DESIGN.md §5 C02',
         level_note="Trusts the harness generator only as far as zlib confirms each generated stream; compressor FFI crates are the repository's own dev-dependencies.",
-        technique='runtime monitoring: round-trip identity oracle over generated and mutated streams',
+        technique='runtime monitoring: round-trip identity oracle over generated and mutated streams; coverage-guided (libFuzzer+ASan) inputs in the thorough tier',
         level="exploration",
         rule="inputs: raw DEFLATE streams from zlib/zlib-ng/libdeflate/miniz_oxide over their parameter grids, "
              "from the independent valid-stream generator, hand-built pathological shapes, and byte/bit mutations "
@@ -32,7 +32,7 @@ PROPS = {
         level_text='Exploration by differential runtime monitoring against an independent decoder (zlib inflate): plaintext and consumed length compared on every doubly-accepted stream, including alphabet sweeps that exercise every length/distance code and extra-bit value.',
         design_ref='DESIGN.md §5 C03',
         level_note="zlib's inflate is the trusted reference; generator ground truth gives a third opinion on generated streams.",
-        technique='runtime monitoring: differential oracle (zlib inflate) over generated and mutated streams',
+        technique='runtime monitoring: differential oracle (zlib inflate) over generated, directed and mutated streams; coverage-guided (libFuzzer+ASan) inputs in the thorough tier',
         level="exploration",
         rule="same stream sources as C02 plus alphabet sweeps (every literal, every length code with min/max/"
              "random extra bits, every distance code with min/max/random extra bits, fixed and dynamic codes). "
@@ -49,7 +49,7 @@ PROPS = {
         level_text='Exploration with one exhaustively enumerated sub-space: every byte string up to length 3 (4 in the thorough tier) under both verify settings, plus large sampled families of hostile inputs, all executed under a panic monitor, a CPU-time watchdog and a process-death supervisor in a build with overflow checks and debug assertions on.',
         design_ref='DESIGN.md §5 C05',
         level_note='Bounded time is judged against a fixed CPU budget; absence of panics is established only for executed inputs.',
-        technique='runtime monitoring: panic/abort/CPU-budget monitors over exhaustive tiny inputs and hostile generated inputs (checked build)',
+        technique='runtime monitoring: panic/abort/CPU-budget monitors over exhaustive tiny inputs and hostile generated inputs (checked build); coverage-guided (libFuzzer+ASan) inputs in the thorough tier',
         level="exploration",
         rule="every byte string of length <= 3 (and = 4 in the thorough tier) x both verify settings, enumerated "
              "completely; plus noise behind every plausible block header, all generator/compressor/shape streams "
@@ -71,7 +71,7 @@ PROPS = {
         level_text='Exploration with the token alphabet enumerated completely: every (length, distance, 258-coding) reference under fixed and dynamic codes and every padding pattern is pushed through the real parser and block writer (hook) and compared bit for bit; generator, compressor and mutated streams are sampled on top.',
         design_ref='DESIGN.md §5 C07',
         level_note='Relies on the add-only hook parse_and_rewrite, cross-checked against the public reconstruction path.',
-        technique='runtime monitoring: identity oracle at a hook, exhaustive token alphabet + generated streams',
+        technique='runtime monitoring: identity oracle at a hook, exhaustive token alphabet and header fields + generated streams; coverage-guided (libFuzzer+ASan) inputs in the thorough tier',
         level="exploration",
         rule="exhaustive: 512 streams containing every (length 3..258, distance 1..32768) reference once under "
              "the fixed code and once under a random complete dynamic code, length 258 in both codings; all 8x256 "
@@ -97,7 +97,7 @@ PROPS.update({
         level_text="Exploration with one exhaustively enumerated sub-space: every file of length <= 3 (4 in the thorough tier) goes through expand/recreate (and a sixty-fourth of them through the zstd pair); assembled container files with embedded streams from five sources, two junk flavours, the named edge-case shapes, mutations and the repository's own samples are judged by the identity oracle.",
         design_ref="DESIGN.md §5 C01",
         level_note="Files >= 4 GiB (the edge of the stated domain) are not generated. The independent container parser and scan_spans are diagnosis only.",
-        technique="runtime monitoring: round-trip identity oracle over exhaustive tiny files and assembled/mutated container files",
+        technique="runtime monitoring: round-trip identity oracle over exhaustive tiny files and assembled/mutated container files; coverage-guided (libFuzzer+ASan) inputs in the thorough tier",
         level="exploration",
         rule="every byte string of length <= 3 (= 4 in the thorough tier) completely; edge-case assemblers; files assembled "
              "from 0-4 streams (four compressors + independent generator) behind zlib/gzip/zip/PNG wrappers between clean or "
